@@ -262,11 +262,12 @@ def r2(ctx):
 
     I3 = Interp(idx, Config(stubs={"recv_fn": recv_stub}, loop_unroll=2))
 
-    def body3(run):
-        fb = new_obj(run, "_abnf:frame_buffer", "fb", recv=Sym("recv_fn", "func"), recv_buffer=new_list(run, [Sym("held", "bytes")]))
+    def body3(run, held=True):
+        fb = new_obj(run, "_abnf:frame_buffer", "fb", recv=Sym("recv_fn", "func"), recv_buffer=new_list(run, [Sym("held", "bytes")] if held else []))
         return I3.call(run, I3.getattr(run, fb, "recv_strict", None), [isym(run, "declared_length", 0, 2 ** 64 - 1)], {}, None)
 
-    outs3 = ctx.count_paths(I3.explore(body3))
+    # with something already buffered (a retry after a timeout) and with an empty buffer (the common case, where a fast path would live)
+    outs3 = ctx.count_paths(I3.explore(body3)) + ctx.count_paths(I3.explore(lambda run: body3(run, held=False)))
     judge("frame payload", "_abnf:frame_buffer.recv_strict", [(e.args[0], o, e) for o in outs3 for e in o.effects if e.name == "transport.recv" and e.args])
     # (c) the response head
     I4 = Interp(idx, Config(no_inline={"_socket:recv"}, loop_unroll=2))
@@ -465,3 +466,9 @@ def r6(ctx):
 def r_sib_r_c17_7(ctx):
     from .c07 import r7 as loop_not_recursion
     loop_not_recursion(ctx)
+
+
+@rule("R-C17-8", min_instances=3, title="the size asked of the transport never exceeds min(constant, what the current field still needs): a declared 2^63 length is never passed to recv() (OverflowError / MemoryError are not documented exceptions)")
+def r_sib_r_c17_8(ctx):
+    from .c02 import r5 as request_bounded
+    request_bounded(ctx)
